@@ -5,7 +5,7 @@ From Verif Require Import Base Obs Cal Tables Period PeriodStr.
 Import ListNotations.
 Open Scope Z_scope.
 
-Inductive case :=
+Inductive step :=
   | KShow (p : period)             (* str(Period(...)) *)
   | KShowInst (c : date)           (* str(Instant(...)) *)
   | KParse (s : string)            (* periods.period(s) *)
@@ -13,7 +13,9 @@ Inductive case :=
   | KRound (p : period)            (* text, period(text), str(period(text)) *)
   | KRoundInst (c : date)          (* text, instant(text) *)
   | KShowMany (l : list period)    (* texts of several periods (collision search) *)
-  | KDisk (l : list period).       (* OnDiskStorage: file name of each period, key restored from it *)
+  | KDisk (l : list period)        (* OnDiskStorage: file name of each period, key restored from it *)
+  | KParseShow (s : string)        (* q = periods.period(s); then str(q), period(str(q)), str again *)
+  | KParseShowInst (s : string).   (* i = periods.instant(s); then str(i), instant(str(i)) *)
 
 Definition unit_code (u : unit_t) : Z :=
   match u with Weekday => 0 | Week => 1 | Day => 2 | Month => 3 | Year => 4 | Eternity => 5 end.
@@ -21,30 +23,57 @@ Definition unit_code (u : unit_t) : Z :=
 Definition operiod (p : period) : obs :=
   let '(u, s, n) := p in OL [OZ (unit_code u); odate s; OZ n].
 
-Definition run (c : case) : obs :=
+Definition round_obs (p : period) : obs :=
+  match show_period p with
+  | Err e => OErr e
+  | Ok s =>
+      match parse_period s with
+      | Err e => OL [OS s; OErr e]
+      | Ok q => OL [OS s; operiod q; ores OS (show_period q)]
+      end
+  end.
+
+Definition round_inst_obs (d : date) : obs :=
+  match show_instant d with
+  | Err e => OErr e
+  | Ok s => OL [OS s; ores odate (parse_instant s)]
+  end.
+
+Definition run_step (c : step) : obs :=
   match c with
   | KShow p => ores OS (show_period p)
   | KShowInst d => ores OS (show_instant d)
   | KParse s => ores operiod (parse_period s)
   | KParseInst s => ores odate (parse_instant s)
-  | KRound p =>
-      match show_period p with
-      | Err e => OErr e
-      | Ok s =>
-          match parse_period s with
-          | Err e => OL [OS s; OErr e]
-          | Ok q => OL [OS s; operiod q; ores OS (show_period q)]
-          end
-      end
-  | KRoundInst d =>
-      match show_instant d with
-      | Err e => OErr e
-      | Ok s => OL [OS s; ores odate (parse_instant s)]
-      end
+  | KRound p => round_obs p
+  | KRoundInst d => round_inst_obs d
   | KShowMany l => OL (map (fun p => ores OS (show_period p)) l)
   | KDisk l =>
       OL (map (fun p => match show_period p with
                         | Err e => OErr e
                         | Ok s => OL [OS s; ores operiod (parse_period s)]
                         end) l)
+    | KParseShow t =>
+      match parse_period t with
+      | Err e => OErr e
+      | Ok q => OL [operiod q; round_obs q]
+      end
+  | KParseShowInst t =>
+      match parse_instant t with
+      | Err e => OErr e
+      | Ok d => OL [odate d; round_inst_obs d]
+      end
+  end.
+
+(** A case is one operation, or a sequence of operations run in ONE process of the
+    implementation, in order.  The model has no state: printing and parsing must not depend
+    on what was parsed or printed before. *)
+Inductive case :=
+  | KOne (s : step)
+  | KSeq (l : list step).
+
+Definition run (c : case) : obs :=
+  match c with
+  | KOne s => run_step s
+  | KSeq l => OL (map run_step l)
   end.
